@@ -193,7 +193,7 @@ func (b *backend) deal(prevRevision uint64) (uint64, error) {
 	if err != nil {
 		return 0, err
 	}
-	if prevRevision > 0 && rev < prevRevision {
+	if prevRevision > 0 && rev <= prevRevision {
 		klog.ErrorS(ErrRevisionDriftBack, "deal", "generated", rev, "prev", prevRevision)
 		b.metricCli.EmitCounter("revision.generator.invalid", 1)
 		return rev, ErrRevisionDriftBack
